@@ -931,6 +931,12 @@ func main() {
 				fmt.Printf("replay %v\n", c)
 				runQR(l, c)
 			}
+		case "kanji-char":
+			var c kanjiCase
+			if mc.LoadReplay(chk.ReplayFile(), &c) == nil {
+				fmt.Printf("replay %+v\n", c)
+				kanjiCharOne(l, c)
+			}
 		case "dm-lookup":
 			var c dmCase
 			if mc.LoadReplay(chk.ReplayFile(), &c) == nil {
@@ -967,6 +973,7 @@ func main() {
 	qrSweep()
 	qrForced()
 	qrHeaders()
+	runKanjiChars()
 	dmLookups()
 	dmWriter()
 	dmNonDigit()
